@@ -299,6 +299,19 @@ func newDecoder(fileIO fileIO, delegate DecoderDelegate, indexPath string, numGo
 		return nil, err
 	}
 
+	for _, info := range recoverySet {
+		// Compute the expected checksum count in a way that
+		// can't overflow.
+		sliceByteCount := indexFile.mainPacket.sliceByteCount
+		expectedCount := info.byteCount / sliceByteCount
+		if info.byteCount%sliceByteCount != 0 {
+			expectedCount++
+		}
+		if len(info.checksumPairs) != expectedCount {
+			return nil, errors.New("file byte count inconsistent with checksum count")
+		}
+	}
+
 	nonRecoverySet, err := makeDecoderInputFileInfos(indexFile.mainPacket.nonRecoverySet, indexFile.fileDescriptionPackets, indexFile.ifscPackets)
 	if err != nil {
 		return nil, err
